@@ -376,7 +376,13 @@ struct inst
   {
     namespace fb = fcppt::math::box;
     std::string r = "ext=" + show_box(fb::extend_bounding_box(b, p)) + " in=" + b01(fb::contains_point(b, p));
-    // the point as a vector with another storage type: row 1 of a 2 x N matrix (a view into the matrix)
+    r += b01(contains_point_row(b, p));
+    return r;
+  }
+
+  // contains_point with the point as a vector of another storage type: row 1 of a 2 x N matrix (a view into the matrix)
+  static bool contains_point_row(box const &b, vec const &p)
+  {
     if constexpr (N >= 1)
     {
       using mat = fcppt::math::matrix::static_<T, 2, N>;
@@ -384,11 +390,10 @@ struct inst
       mat const m{fcppt::math::matrix::init<mat>(
           [&pa]<fcppt::math::size_type R, fcppt::math::size_type C>(fcppt::math::matrix::index<R, C>)
           { return R == 1 ? pa[C] : T{}; })};
-      r += b01(fb::contains_point(b, fcppt::math::matrix::at_r<1>(m)));
+      return fcppt::math::box::contains_point(b, fcppt::math::matrix::at_r<1>(m));
     }
     else
-      r += b01(fb::contains_point(b, p));
-    return r;
+      return fcppt::math::box::contains_point(b, p);
   }
 
   static std::string strel_line(box const &b, vec const &f)
@@ -476,7 +481,7 @@ struct inst
       hs = mix_box(mix_box(hs, fb::shrink(b, v)), fb::stretch_absolute(b, v));
     std::uint64_t hp = vh::fnv_init;
     for (vec const &p : lat)
-      hp = mix(mix_box(hp, fb::extend_bounding_box(b, p)), fb::contains_point(b, p) ? 1U : 0U);
+      hp = mix(mix_box(hp, fb::extend_bounding_box(b, p)), (fb::contains_point(b, p) ? 1U : 0U) | (contains_point_row(b, p) ? 2U : 0U));
     std::uint64_t hr = vh::fnv_init;
     for (vec const &f : std::is_signed_v<T> ? cube(static_cast<T>(-2), static_cast<T>(2)) : cube(static_cast<T>(0), static_cast<T>(3)))
       hr = mix_box(hr, fb::stretch_relative(b, f));
